@@ -388,6 +388,73 @@ class _FormatRewriter(ast.NodeTransformer):
         return node
 
 
+class _IfConvRewriter(ast.NodeTransformer):
+    """if-conversion of the one statement shape `if <test>: <name> = <name-or-constant>` (no else) into
+    `<name> = __sx_select__(<test>, lambda: <value>, lambda: <name>)`.  For a concrete test the helper evaluates exactly the thunk
+    Python would have executed; for a symbolic test over two numbers of the same kind it returns the if-then-else term instead of
+    forking (the value expression is a bare name or a literal: no side effect, no exception other than NameError, which falls back
+    to the fork).  This is what keeps the fraction search of set_best_sizes at one path per trailing-zero count instead of one per
+    fractional bit pattern."""
+
+    def __init__(self):
+        self.sites = 0
+        self.scope = ['module']
+
+    def _scoped(kind):
+        def visit(self, node):
+            self.scope.append(kind)
+            self.generic_visit(node)
+            self.scope.pop()
+            return node
+        return visit
+    visit_FunctionDef = _scoped('function')
+    visit_ClassDef = _scoped('class')
+    visit_Lambda = _scoped('other')
+
+    def visit_If(self, node):
+        self.generic_visit(node)
+        if node.orelse or len(node.body) != 1 or self.scope[-1] != 'function':
+            return node
+        st = node.body[0]
+        if not (_isinstance(st, ast.Assign) and len(st.targets) == 1 and _isinstance(st.targets[0], ast.Name)
+                and _isinstance(st.value, (ast.Name, ast.Constant))):
+            return node
+        name = st.targets[0].id
+        self.sites += 1
+        thunk = lambda body: ast.Lambda(args=ast.arguments(posonlyargs=[], args=[], kwonlyargs=[], kw_defaults=[], defaults=[]), body=body)
+        call = ast.Call(func=ast.Name('__sx_select__', ast.Load()),
+                        args=[node.test, thunk(st.value), thunk(ast.Name(name, ast.Load()))], keywords=[])
+        return ast.copy_location(ast.Assign(targets=[ast.Name(name, ast.Store())], value=call), node)
+
+
+def sx_select(c, then_value, else_value):
+    if _isinstance(c, symnp.ndarray) and T.is_sym(c):
+        try:
+            c = c._one()
+        except Exception:
+            pass
+    if not _isinstance(c, T.SBool):
+        return then_value() if c else else_value()
+    if T.EX is not None:
+        d = T.EX.decided(c)            # one-sided under the path condition: no term is built, no decision is recorded
+        if d is not None:
+            return then_value() if d else else_value()
+    try:
+        a, b = then_value(), else_value()
+    except NameError:
+        return then_value() if builtins.bool(c) else else_value()
+    ka, kb = _kind(a), _kind(b)
+    if ka == kb == 'i' and not _isinstance(a, T.SBool) and not _isinstance(b, T.SBool):
+        return T.iite(c, a, b)
+    if ka == kb == 'f':
+        return T.fite(c, a, b)
+    if (ka == kb and ka in ('af', 'ai', 'au') and a.shape == b.shape == () and a.dtype == b.dtype
+            and builtins.bool(a._scalar) == builtins.bool(b._scalar)):
+        # two NumPy scalars (or 0-d arrays) of one dtype: merge the single cell
+        return a._like([symnp._ite(c, a._one(), b._one())], scalar=a._scalar)
+    return a if builtins.bool(c) else b          # not two plain numbers of one kind: fork, as the if statement does
+
+
 # ------------------------------------------------------------------------------------------------ loading
 
 _counter = [0]
@@ -424,6 +491,7 @@ def load_lifted(repo='/repo', mutate=None):
     real_import = builtins.__import__
     pkgdir = os.path.join(repo, 'fxpmath')
     rewriter_sites = [0]
+    ifconv_sites = [0]
 
     def _load_mod(full):
         rel = full.split('.')[1:]
@@ -443,8 +511,13 @@ def load_lifted(repo='/repo', mutate=None):
             src = src.replace(old, new, 1)
         tree = ast.parse(src, path)
         rw = _FormatRewriter()
-        tree = ast.fix_missing_locations(rw.visit(tree))
+        tree = rw.visit(tree)
         rewriter_sites[0] += rw.sites
+        if os.environ.get('SX_NO_IFCONV') != '1':
+            rc = _IfConvRewriter()
+            tree = rc.visit(tree)
+            ifconv_sites[0] += rc.sites
+        tree = ast.fix_missing_locations(tree)
         exec(compile(tree, path, 'exec'), m.__dict__)
         return m
 
@@ -471,13 +544,14 @@ def load_lifted(repo='/repo', mutate=None):
 
     bi.update(__import__=imp, int=IntShim, float=FloatShim, str=StrShim, complex=ComplexShim,
               isinstance=sx_isinstance, type=sx_type, min=sx_min, max=sx_max, bin=sx_bin, hex=sx_hex, set=sx_set,
-              round=sx_round, divmod=sx_divmod, print=lambda *a, **k: None, __sx_format__=sx_format)
+              round=sx_round, divmod=sx_divmod, print=lambda *a, **k: None, __sx_format__=sx_format, __sx_select__=sx_select)
     T.set_explorer(T.EX)
     pkg = _load_mod(base)
     if base + '.callbacks' not in sys.modules:
         _load_mod(base + '.callbacks')
     L = Lifted(pkg, symnp, True, repo, file_hashes(repo), base)
     L.format_sites = rewriter_sites[0]
+    L.ifconv_sites = ifconv_sites[0]
     return L
 
 
